@@ -109,14 +109,19 @@ func ShareWithConfig[T any](config ShareConfig[T]) func(Observable[T]) Observabl
 		}
 
 		return NewObservableWithContext(func(subscriberCtx context.Context, destination Observer[T]) Teardown {
-			mu.Lock()
-
-			refCount++
 			// `currentSubject` is a backup (local reference) of `subject`
 			// to manipulate it even after reset.
-			currentSubject, currentSourceSubscription, createdSubject := getOrCreateSubject()
+			currentSubject, currentSourceSubscription, createdSubject := func() (Subject[T], Subscription, bool) {
+				mu.Lock()
+				// config.Connector is user code: if it panics, the lock must not stay held
+				// and the failed subscriber must not be counted.
+				defer mu.Unlock()
 
-			mu.Unlock()
+				s, ss, created := getOrCreateSubject()
+				refCount++
+
+				return s, ss, created
+			}()
 
 			// Expected to be non-blocking.
 			// This is the subscription between the subject and the new observer.
